@@ -129,6 +129,12 @@ FIXED_DEPTH = [
     ('div>p{a\x0bb}', DEPTH_CFG, None),        # \v, \f: ordinary characters since push_string splits at CR/LF only
     ('ul>li{x\x0cy}+li', DEPTH_CFG, None),
     ('div>a[title="x\ny"]', DEPTH_CFG, None),
+    # an inline element nested in a block whose FIRST child needs no line break but a later one does
+    ('div>span>b+{x}+{y}', {'options': {'output.formatSkip': [], 'output.selfClosingStyle': 'xhtml', 'output.inlineBreak': 0}}, None),
+    ('div>span>b+{x}+{y}', {'options': {'output.formatSkip': [], 'output.selfClosingStyle': 'xhtml', 'output.inlineBreak': 4}}, None),
+    ('section>em>i+b+{t1}+{t2}+u', {'options': {'output.formatSkip': [], 'output.selfClosingStyle': 'xhtml', 'output.inlineBreak': 0}}, None),
+    ('div>span>b+{a\nb}', DEPTH_CFG, None),
+    ('ul>li>a>i+{x\ny}+b', DEPTH_CFG, None),
     ('div>p{a\nb ${1} c}>x', DEPTH_CFG, 'C12:depth-multiline-field-text-with-children'),
     ('section>p{${1}l1\nl2}>em', DEPTH_CFG, 'C12:depth-multiline-field-text-with-children'),
 ]
@@ -184,7 +190,10 @@ def evaluate(kind, abbr, cfg_a, cfg_b, ra, rb):
     if kind == 'cosmetic':
         return oracle_cosmetic(ra[1], rb[1]), None
     if kind == 'depth':
-        return oracle_depth(ra[1], cfg_a), None
+        bad = oracle_depth(ra[1], cfg_a)
+        if bad and bad.startswith(fu.ALIGN_LEAF):
+            return bad, 'C12:close-aligned-inline-leaf-inner-format'
+        return bad, None
     if kind == 'comments':
         return oracle_comments(ra[1], rb[1], cfg_a), None
     if kind == 'selfclose':
